@@ -272,6 +272,29 @@ pub fn specs(tier: &str) -> Vec<ExpSpec> {
             }
         }
     }
+    // (a) FAT16/FAT32 volumes whose FAT[1] copy of the status says dirty / hard error while the boot
+    // sector byte is clean; (b) status bytes with reserved bits set next to bits 0/1 (judged on bits 0/1 only)
+    {
+        for ft in [FatType::Fat16, FatType::Fat32] {
+            for (d, io) in [(true, false), (false, true), (true, true)] {
+                let cfg = vol::tiny_with(ft, 8, 16);
+                let mut c = with_status(&cfg, 0);
+                let Base::Bytes(img) = &*c.base else { unreachable!() };
+                let mut img = img.clone();
+                vol::set_fat1_flags(&mut img, d, io);
+                c.base = Arc::new(Base::Bytes(img));
+                c.name = format!("{}-fat1{}{}", c.name, if d { "d" } else { "" }, if io { "e" } else { "" });
+                v.push(ExpSpec::new(c, alphabet(512), if th { 3 } else { 2 }));
+            }
+        }
+        for ft in [FatType::Fat12, FatType::Fat16, FatType::Fat32] {
+            let cfg = vol::tiny_with(ft, 8, 16);
+            for status in [0x04u8, 0x05, 0x82, 0x43] {
+                let c = with_status(&cfg, status);
+                v.push(ExpSpec::new(c, alphabet(512), if th { 3 } else { 2 }));
+            }
+        }
+    }
     // extended boot signature other than 0x29 (0x28: only the volume id is valid; 0x00: none of the three fields): the
     // status byte next to it is not one of the fields the signature announces
     for ft in [FatType::Fat12, FatType::Fat16, FatType::Fat32] {
